@@ -397,9 +397,10 @@ void UncText::set(const UncText &ref, size_t idx, size_t len)
       update_logtext();
       return;
    }
-   m_chars.resize(len);
-
+   // clamp first: callers compute 'len' as 'size - 4' for a comment, which
+   // wraps around for an unterminated one such as '/*/'
    len = fix_len_idx(ref_size, idx, len);
+   m_chars.resize(len);
 
    for (size_t di = 0;
         len > 0;
